@@ -363,7 +363,7 @@ Theorem lines_merge_spec : forall day self others m reps,
   (mark day = false -> reps = repeat (day, day, 1) (spec_report_count self others)).
 Proof.
   intros day self others m reps H. destruct (lines_merge_rule _ _ _ _ _ H) as (_ & _ & HR & Hrep & _).
-  split; [|exact Hrep]. unfold spec_lines.
+  split; [|exact Hrep]. unfold spec_lines. clear H Hrep.
   induction HR as [|col r cols m' Hh _ IH]; [reflexivity|]. cbn [map]. f_equal; [|exact IH].
   destruct Hh as [[Ha ->]|Hf]; [symmetry; apply spec_line_all_marked; exact Ha|symmetry; apply spec_line_first_min; exact Hf].
 Qed.
